@@ -1,10 +1,10 @@
 import Pyrealb.Model.Json
 /-! # `toSource` and an evaluator of the printed source
 
-* `toSource` : Terminal.py:478-479 (`f'{constType}("{lemma}")'` — the lemma is NOT escaped), Phrase.py:560-565,
+* `toSource` : Terminal.toSource (the lemma escaped by `quoteSource`, `lang=` where the language is not the root's), Phrase.py:560-565,
   Dependent.py:499-503, `addOptSource` (`repr` of the value) and the special case of `tag` with attributes
   (Constituent.py:142-158).  Children added with `add()` are printed as arguments: the printed source never
-  contains `.add(…)` nor a `lang=` argument.
+  contains `.add(…)`.
 * `parseSrc` stands for Python's `eval` of that text in a namespace `from pyrealb import *`: the constructor-call
   syntax with string / integer / `True|False|None` / dict literals, adjacent string literals concatenated, the
   escapes `\\ \' \" \n \r \t \a \b \f \v` (any other backslash pair is kept, as Python does with a warning;
@@ -75,25 +75,48 @@ def strAtom : Atom → Str
   | .dt y mo d h mi sec =>
     pad4 y ++ ['-'] ++ pad2 mo ++ ['-'] ++ pad2 d ++ [' '] ++ pad2 h ++ [':'] ++ pad2 mi ++ [':'] ++ pad2 sec
 
+/-- `Constituent.quoteSource` : a string as a double-quoted Python literal (repair a4c65f5) -/
+def quoteSrcBody : Str → Str
+  | [] => []
+  | c :: r =>
+    (if c = '\\' then ['\\', '\\'] else if c = '"' then ['\\', '"'] else if c = '\n' then ['\\', 'n'] else [c])
+      ++ quoteSrcBody r
+
+def quoteSrc (x : Str) : Str := '"' :: quoteSrcBody x ++ ['"']
+
 def printCall : Call → Str
   | .opt name arg => '.' :: name ++ ['('] ++ reprPVal arg ++ [')']
-  | .tag2 name attrs => s ".tag(\"" ++ name ++ s "\"," ++ reprDict attrs ++ [')']
+  | .tag2 name attrs => s ".tag(" ++ quoteSrc name ++ [','] ++ reprDict attrs ++ [')']
 
 def printHist : List Call → Str
   | [] => []
   | c :: r => printCall c ++ printHist r
 
+/-- `Constituent.langSource` (repair 09cd540) : `lang="…"` on every constituent that is not the root and whose language
+    is not the root's; `root = none` at the root itself -/
+def langArg (root : Option Lang) (lang : Lang) (first : Bool) : Str :=
+  match root with
+  | some l => if lang = l then [] else (if first then [] else [',']) ++ s "lang=\"" ++ lang.code ++ ['"']
+  | none => []
+
 mutual
-/-- `e.toSource()` -/
-def toSource : Expr → Str
-  | .term n lemma _ => n.kind ++ s "(\"" ++ strAtom lemma ++ s "\")" ++ printHist n.hist
-  | .phr n es => n.kind ++ ['('] ++ toSourceList es ++ [')'] ++ printHist n.hist
-  | .dep n t ds => n.kind ++ ['('] ++ toSource t ++ (if ds.isEmpty then [] else ',' :: toSourceList ds) ++ [')'] ++ printHist n.hist
-def toSourceList : List Expr → Str
+/-- `toSource()` of a constituent inside an expression whose root has language `root` (`none`: the root itself) -/
+def srcOf (root : Option Lang) : Expr → Str
+  | .term n lemma _ => n.kind ++ ['('] ++ quoteSrc (strAtom lemma) ++ langArg root n.lang false ++ [')'] ++ printHist n.hist
+  | .phr n es =>
+    n.kind ++ ['('] ++ srcOfList (some (root.getD n.lang)) es ++ langArg root n.lang es.isEmpty ++ [')'] ++ printHist n.hist
+  | .dep n t ds =>
+    n.kind ++ ['('] ++ srcOf (some (root.getD n.lang)) t ++
+      (if ds.isEmpty then [] else ',' :: srcOfList (some (root.getD n.lang)) ds) ++ langArg root n.lang false ++ [')']
+      ++ printHist n.hist
+def srcOfList (root : Option Lang) : List Expr → Str
   | [] => []
-  | [e] => toSource e
-  | e :: r => toSource e ++ [','] ++ toSourceList r
+  | [e] => srcOf root e
+  | e :: r => srcOf root e ++ [','] ++ srcOfList root r
 end
+
+/-- `e.toSource()` -/
+def toSource (e : Expr) : Str := srcOf none e
 
 /-! ### reading the source back -/
 
@@ -241,6 +264,7 @@ def phraseKindsSrc : List Str := jsonPhraseKinds
 inductive Arg where
   | e (p : Prog)
   | v (v : PVal)
+  | kw (lang : Str)          -- `lang="…"`
   | nameErr
 
 def argProgs : List Arg → Option (List Prog)
@@ -259,20 +283,33 @@ def hasNameErr : List Arg → Bool
   | .nameErr :: _ => true
   | _ :: r => hasNameErr r
 
+/-- the positional arguments and the `lang=` keyword argument (last) -/
+def splitKw : List Arg → List Arg × Option Str
+  | [] => ([], none)
+  | [.kw x] => ([], some x)
+  | a :: r => let p := splitKw r; (a :: p.1, p.2)
+
+/-- the factory functions: `if lang == "en": …En else …Fr`; without `lang=`, the current language -/
+def kwLang (cur : Lang) : Option Str → Lang
+  | none => cur
+  | some x => if x = s "en" then .en else .fr
+
 /-- the node a constructor call denotes when evaluated under the current language `cur` -/
-def mkNode (cur : Lang) (name : Str) (args : List Arg) : Except RouteErr Prog :=
+def mkNode (cur : Lang) (name : Str) (args0 : List Arg) : Except RouteErr Prog :=
+  let args := (splitKw args0).1
+  let lang := kwLang cur (splitKw args0).2
   if termKindsSrc.contains name then
     match args with
-    | [] => .ok (.term name .none cur)
-    | [.v (.atom a)] => .ok (.term name a cur)
+    | [] => .ok (.term name .none lang)
+    | [.v (.atom a)] => .ok (.term name a lang)
     | _ => .error .valueError            -- a second positional argument (`lang`) is outside the model
   else if phraseKindsSrc.contains name then
     match argProgs args with
-    | some ps => .ok (.phr name cur ps)
+    | some ps => .ok (.phr name lang ps)
     | none => .error .valueError
   else if deprels.contains name then
     match argProgs args with
-    | some (t :: ps) => .ok (.dep name cur t ps)
+    | some (t :: ps) => .ok (.dep name lang t ps)
     | _ => .error .valueError
   else .error .nameError
 
@@ -284,7 +321,12 @@ def startsCall (y : Str) : Bool :=
 
 /-- one argument: a constituent expression (read by `rx`) or a literal -/
 def readOne (rx : Str → Except RouteErr (Prog × Str)) (y : Str) : Except RouteErr (Arg × Str) :=
-  if startsCall y then
+  if (readIdent y).1 = s "lang" && (readIdent y).2.head? = some '=' then
+    match readAtomLit ((readIdent y).2.drop 1) with
+    | .ok (.str x, rest) => .ok (.kw x, rest)
+    | .ok _ => .error .valueError
+    | .error err => .error err
+  else if startsCall y then
     match rx y with
     | .ok (p, rest) => .ok (.e p, rest)
     | .error err => .error err
